@@ -439,7 +439,7 @@ func RunC02History[V any](c *core.Ctx, d SetDom[V], collator string, defaultRank
 // the members are removed in three different orders.
 func RunC02Orders(c *core.Ctx, idx int, collator string) {
 	// decode idx -> (k, perm index)
-	fact := []int{1, 1, 2, 6, 24, 120, 720}
+	fact := []int{1, 1, 2, 6, 24, 120, 720, 5040}
 	k := 0
 	for k < len(fact) && idx >= fact[k] {
 		idx -= fact[k]
